@@ -191,7 +191,12 @@ func Run(ctx *Ctx, p *Property, level string) int {
 	hitFinding := map[string]bool{}
 	for _, n := range names {
 		a := byName[n]
-		funcs[a.fn] = true
+		// path tags are part of obligation names, not of the function under contract
+		fnName := a.fn
+		if i := strings.Index(fnName, "["); i > 0 {
+			fnName = fnName[:i]
+		}
+		funcs[fnName] = true
 		solverMs += a.ms
 		var bes []string
 		for b, c := range a.backends {
@@ -248,6 +253,47 @@ func Run(ctx *Ctx, p *Property, level string) int {
 	}
 	ev := Evidence{PropertyID: p.ID, Tier: ctx.Tier, Seed: ctx.Seed, Level: level, Assumptions: p.Assumptions,
 		WallS: time.Since(start).Seconds(), Violations: violations}
+	// large obligation lists (tens of thousands of path-specific names) are
+	// summarised per generator function and obligation kind; failed and
+	// known-finding entries are always listed individually
+	if len(oblList) > 400 {
+		type grp struct {
+			names, paths, discharged int
+			ms                       int64
+		}
+		groups := map[string]*grp{}
+		var keep []map[string]interface{}
+		var order []string
+		for _, en := range oblList {
+			if en["verdict"] != "discharged" {
+				keep = append(keep, en)
+				continue
+			}
+			n := en["name"].(string)
+			key := n
+			if i := strings.Index(n, "["); i >= 0 {
+				if j := strings.LastIndex(n, "]"); j > i {
+					key = n[:i] + "[...]" + n[j+1:]
+				}
+			}
+			g := groups[key]
+			if g == nil {
+				g = &grp{}
+				groups[key] = g
+				order = append(order, key)
+			}
+			g.names++
+			g.paths += en["paths"].(int)
+			g.discharged += en["discharged"].(int)
+			g.ms += en["ms"].(int64)
+		}
+		sort.Strings(order)
+		for _, k := range order {
+			g := groups[k]
+			keep = append(keep, map[string]interface{}{"name": k, "verdict": "discharged", "summarised_names": g.names, "paths": g.paths, "discharged": g.discharged, "ms": g.ms})
+		}
+		oblList = keep
+	}
 	ev.Coverage = map[string]interface{}{
 		"obligations":               total,
 		"discharged":                discharged,
